@@ -746,10 +746,17 @@ def gen_case(rng, kind, idx=None):
         for i, g in enumerate(groups):
             slots = mk_slots(rng, used)
             order = list(slots); rng.shuffle(order)
-            pieces = [(bounded, 'D2', {dist: g}, rng.choice(['inline', 'where'])), (bounded, 'D2', {other: rng.choice(GROUPS)}, rng.choice(['inline', 'where']))]
-            if rng.random() < 0.5:
+            # the six arrangements of the two pieces (which one the visitor meets last, inline
+            # bounds being visited before the where-clause) are cycled through systematically
+            arr = ((idx or 0) + i) % 6 if idx is not None else rng.randrange(6)
+            pd, po = [('inline', 'where'), ('where', 'inline'), ('where', 'where'), ('where', 'where'), ('inline', 'inline'), ('inline', 'inline')][arr]
+            if bounded != '{T0}':
+                pd, po = 'where', 'where'
+            pieces = [(bounded, 'D2', {dist: g}, pd), (bounded, 'D2', {other: rng.choice(GROUPS)}, po)]
+            if arr in (3, 5):
                 pieces.reverse()
             blocks.append(Block({x: slots[x] for x in order}, None, self_fmt, pieces, 'b%d' % i))
+            blocks[-1].dist_assoc = dist
         headers = [HEADERS[h]] * len(blocks)
     elif kind == 'multi':
         hs = rng.choice([('vec', 'opt'), ('vec', 'pair'), ('box', 'arr', 'opt'), ('pair', 'vec', 'opt'), ('ref', 'vec')])
